@@ -518,13 +518,20 @@ class WebSocketResponse(StreamResponse, Generic[_DecodeText]):
             return False
         self._set_closed()
 
+        # One deadline for the whole close: a peer that has stopped reading
+        # must not keep close() waiting in drain() for ever.
+        assert self._loop is not None
+        deadline = (
+            None if self._timeout is None else self._loop.time() + self._timeout
+        )
         try:
-            await self._writer.close(code, message)
-            writer = self._payload_writer
-            assert writer is not None
-            if drain:
-                await writer.drain()
-        except (asyncio.CancelledError, asyncio.TimeoutError):
+            async with async_timeout.timeout_at(deadline):
+                await self._writer.close(code, message)
+                writer = self._payload_writer
+                assert writer is not None
+                if drain:
+                    await writer.drain()
+        except asyncio.CancelledError:
             self._set_code_close_transport(WSCloseCode.ABNORMAL_CLOSURE)
             raise
         except Exception as exc:
@@ -552,7 +559,7 @@ class WebSocketResponse(StreamResponse, Generic[_DecodeText]):
             return True
 
         try:
-            async with async_timeout.timeout(self._timeout):
+            async with async_timeout.timeout_at(deadline):
                 while True:
                     msg = await reader.read()
                     if msg.type is WSMsgType.CLOSE:
